@@ -1,3 +1,4 @@
+import BlockCiphers.Proofs.Gift
 import BlockCiphers.Proofs.Xtea
 import BlockCiphers.Proofs.Rc5SpeckC01
 import BlockCiphers.Proofs.Des
@@ -25,8 +26,32 @@ and is proved by applying it.  ONLY property theorems and non-vacuity examples l
 One theorem (pair) per cipher model, for ALL keys of every accepted length and ALL blocks; Threefish for all tweaks; BelT wide block
 for all inputs of at least 32 bytes; AES at the FIPS-197 level (all Nr, all expanded keys) and for the AES-NI model.
 AES: FIPS-197 level, AES-NI model and the four fixslice backends (64/32-bit, normal/compact).
-Registry entries still outside this file: Kuznyechik (4 backends), GIFT-128 (listed in the evidence).
+Registry entries still outside this file: Kuznyechik (4 backends) (listed in the evidence).
 -/
+
+namespace BC.Gift
+/-- C01 for `Gift128`: every 16-byte key, every block -/
+theorem C01.gift_decrypt_encrypt (key b : BitVec 128) :
+    decrypt (precomputeRkeys key) (encrypt (precomputeRkeys key) b) = b :=
+  _root_.BC.Gift.decrypt_encrypt key b
+end BC.Gift
+
+namespace BC.Gift
+theorem C01.gift_encrypt_decrypt (key b : BitVec 128) :
+    encrypt (precomputeRkeys key) (decrypt (precomputeRkeys key) b) = b :=
+  _root_.BC.Gift.encrypt_decrypt key b
+end BC.Gift
+
+namespace BC.Gift
+/-- `decrypt_block (encrypt_block b) = b` for EVERY round-key array (in particular every `precompute_rkeys key`) -/
+theorem C01.gift_decrypt_encrypt_rk (rk : Array (BitVec 32)) (b : BitVec 128) : decrypt rk (encrypt rk b) = b :=
+  _root_.BC.Gift.decrypt_encrypt_rk rk b
+end BC.Gift
+
+namespace BC.Gift
+theorem C01.gift_encrypt_decrypt_rk (rk : Array (BitVec 32)) (b : BitVec 128) : encrypt rk (decrypt rk b) = b :=
+  _root_.BC.Gift.encrypt_decrypt_rk rk b
+end BC.Gift
 
 namespace BC.Xtea
 theorem C01.decrypt_encrypt (k : Key) (b : BitVec 64) : decrypt k (encrypt k b) = b :=
